@@ -486,7 +486,7 @@ def run(chk):
 
     block_processor_rules(chk, prog)
     tail_append_rule(chk, prog)
-    chk.floor("L11", 3)
+    chk.floor("L11", 2)       # one per pool implementation at least (a shared append helper counts once)
     chk.floor("L1", 25)
     chk.floor("L2", 10)
     chk.floor("L3", 15)
@@ -680,6 +680,7 @@ def tail_append_rule(chk, prog0, units=(("libsquashfs.la", "lib/util/src/threadp
         fns = [f.build() for f in unit.functions.values() if not f.decl]
         # tail fields and the link field:  store x -> gep(load gep(pool, T), link)
         tails = {}
+        ptails = {}
         for f in fns:
             for i in f.insts():
                 if i.op != "store":
@@ -690,6 +691,11 @@ def tail_append_rule(chk, prog0, units=(("libsquashfs.la", "lib/util/src/threadp
                 b = strip_casts(p.ops[0])
                 if b.is_inst and b.op == "load":
                     q = strip_casts(b.ops[0])
+                    if q.is_arg and (getattr(i.ops[0], "ty", "") or "") == (b.ty or ""):
+                        # a generic append helper: the tail pointer is handed in by address (`*last`)
+                        x_ = strip_casts(i.ops[0])
+                        if any(j.op == "store" and strip_casts(j.ops[0]) is x_ and strip_casts(j.ops[1]) is q for j in f.insts()):
+                            ptails[(f, q.idx)] = p.field()
                     if q.is_inst and q.op == "getelementptr" and q.field() and p.field()[0] != q.field()[0]:
                         # pool->T->link = x with T of the node's own pointer type
                         if (getattr(i.ops[0], "ty", "") or "") == (b.ty or "") and (b.ty or "").endswith("*"):
@@ -699,7 +705,7 @@ def tail_append_rule(chk, prog0, units=(("libsquashfs.la", "lib/util/src/threadp
                                    strip_casts(j.ops[1]).op == "getelementptr" and strip_casts(j.ops[1]).field() == q.field()
                                    for j in f.insts()):
                                 tails[q.field()] = p.field()
-        if not tails:
+        if not tails and not ptails:
             chk.broke("L11: no tail pointer of a queue found in %s" % src)
             continue
 
@@ -709,6 +715,15 @@ def tail_append_rule(chk, prog0, units=(("libsquashfs.la", "lib/util/src/threadp
                 return True            # NULL itself: nothing is appended
             if depth > 4:
                 return False
+            if x.is_arg and f.internal:
+                # a static helper that is handed the node: judged where it is called
+                sites = prog.callers_of(f)
+                own = [i for i in f.insts() if i.op == "store" and strip_casts(i.ops[1]).is_inst and
+                       strip_casts(i.ops[1]).op == "getelementptr" and strip_casts(i.ops[1]).field() == link and
+                       strip_casts(strip_casts(i.ops[1]).ops[0]) is x and not (i.ops[0].is_const and i.ops[0].is_null) and
+                       (f.inst_dominates(i, at) or f.reaches(i.bb, at.bb))]
+                if sites and not own and all(x.idx < len(c.ops) and link_null(c.fn.build(), c.ops[x.idx], c, link, depth + 1) for c in sites):
+                    return True
             setters = [i for i in f.insts() if i.op == "store" and strip_casts(i.ops[1]).is_inst and
                        strip_casts(i.ops[1]).op == "getelementptr" and strip_casts(i.ops[1]).field() == link and
                        strip_casts(strip_casts(i.ops[1]).ops[0]) is x]
@@ -750,6 +765,16 @@ def tail_append_rule(chk, prog0, units=(("libsquashfs.la", "lib/util/src/threadp
                 if i.op != "store":
                     continue
                 p = strip_casts(i.ops[1])
+                if p.is_arg and (f, p.idx) in ptails and not i.ops[0].is_const:
+                    n += 1
+                    chk.analysed(f)
+                    inst = "%s:*%s" % (f.name, p.name or ("arg%d" % p.idx))
+                    if link_null(f, i.ops[0], i, ptails[(f, p.idx)]):
+                        chk.ok("L11", inst, i, "the node that becomes the tail (through the append helper) is fresh or had its link cleared at every call site")
+                    else:
+                        chk.violation("L11", inst, i, "a node becomes the tail of a queue (through the append helper) while its link may still "
+                                      "point into the list it was taken from")
+                    continue
                 if not (p.is_inst and p.op == "getelementptr" and p.field() in tails):
                     continue
                 if i.ops[0].is_const:
